@@ -429,17 +429,25 @@ class ColorValue(Value):
                         continue
 
                     # save components
-                    if type_ == Value.NUMBER:
-                        raw.append(item.value.value)
-                        check += 'N'
-                    elif type_ == Value.PERCENTAGE:
-                        if HSL:
-                            # save as percentage fraction
-                            raw.append(item.value.value / 100.0)
-                        else:
-                            # save as real value of percentage of 255
-                            raw.append(int(255 * item.value.value / 100))
-                        check += 'P'
+                    try:
+                        if type_ == Value.NUMBER:
+                            raw.append(item.value.value)
+                            check += 'N'
+                        elif type_ == Value.PERCENTAGE:
+                            if HSL:
+                                # save as percentage fraction
+                                raw.append(item.value.value / 100.0)
+                            else:
+                                # save as real value of percentage of 255
+                                raw.append(int(255 * item.value.value / 100))
+                            check += 'P'
+                    except (OverflowError, ValueError):
+                        # may raise, self is left unchanged then
+                        self._log.error(
+                            'ColorValue: number out of range: %s' % item.value.cssText
+                        )
+                        self.wellformed = False
+                        return
 
                 # validate
                 checks = {
@@ -460,15 +468,23 @@ class ColorValue(Value):
                 if HSL:
                     # convert to rgb
                     # h is 360 based (circle)
-                    h, s, l_ = raw[0] / 360.0, raw[1], raw[2]
-                    # ORDER h l s !!!
-                    r, g, b = colorsys.hls_to_rgb(h, l_, s)
-                    # back to 255 based
-                    rgba = [
-                        int(round(r * 255)),
-                        int(round(g * 255)),
-                        int(round(b * 255)),
-                    ]
+                    try:
+                        h, s, l_ = raw[0] / 360.0, raw[1], raw[2]
+                        # ORDER h l s !!!
+                        r, g, b = colorsys.hls_to_rgb(h, l_, s)
+                        # back to 255 based
+                        rgba = [
+                            int(round(r * 255)),
+                            int(round(g * 255)),
+                            int(round(b * 255)),
+                        ]
+                    except (OverflowError, ValueError):
+                        # may raise, self is left unchanged then
+                        self._log.error(
+                            'ColorValue: number out of range: %s' % cssText
+                        )
+                        self.wellformed = False
+                        return
 
                     if len(raw) > 3:
                         rgba.append(raw[3])
